@@ -19,15 +19,16 @@ import (
 
 // e3Scenario is one closed system explored under the controlled scheduler.
 type e3Scenario struct {
-	Name       string
-	Desc       string
-	Setup      func() any                         // fresh system, built outside the scheduler
-	Threads    []e3Thread                         // controlled threads
-	Check      func(sys any, x *sched.S) []e3Fail // oracle for one complete execution
-	Teardown   func(sys any)
-	FreeCheck  func(sys any) []e3Fail // oracle usable after a free-running execution (optional)
-	PoolPoints bool                   // pool operations are scheduling points (and GC choices) in this scenario
-	MaxSteps   int
+	Name          string
+	Desc          string
+	Setup         func() any                         // fresh system, built outside the scheduler
+	Threads       []e3Thread                         // controlled threads
+	Check         func(sys any, x *sched.S) []e3Fail // oracle for one complete execution
+	Teardown      func(sys any)
+	FreeCheck     func(sys any) []e3Fail // oracle usable after a free-running execution (optional)
+	PoolPoints    bool                   // pool operations are scheduling points (and GC choices) in this scenario
+	NoWGAddPoints bool                   // WaitGroup.Add/Done are not scheduling points in this scenario
+	MaxSteps      int
 }
 
 type e3Thread struct {
@@ -58,6 +59,7 @@ type e3Stats struct {
 func (sc *e3Scenario) runOnce(prefix []int) (*sched.S, any) {
 	vsync.ResetPools()
 	vsync.PoolIsPoint = sc.PoolPoints
+	vsync.WaitGroupAddIsPoint = !sc.NoWGAddPoints
 	sys := sc.Setup()
 	maxSteps := sc.MaxSteps
 	if maxSteps == 0 {
